@@ -749,25 +749,25 @@ def run_analytic(case):
         p = P.FullBlockZXZPass(mq, perform_scan=o.get('scan', False), perform_extract=o.get('extract', False))
     try:
         run_pass(p, c1)
-    except IndexError as e:
-        if o.get('scan') and o.get('depth', 0) > 0 and not o.get('left', True):
+    except BaseException as e:       # noqa  (pyo3 panics derive from BaseException)
+        kind, msg = type(e).__name__, str(e)
+        if kind == 'PanicException' and o.get('scan'):
+            r.bad({'pass': name, 'symptom': 'qfactor_not_capable', 'via': 'ScanningGateRemovalPass(method=qfactor), native panic'},
+                  'the pass completes', f'{kind}: {msg}',
+                  f'{name}(perform_scan=True) instantiates with method=qfactor a circuit holding a gate the native QFactor does not implement')
+        elif kind == 'IndexError' and o.get('scan') and o.get('depth', 0) > 0 and not o.get('left', True):
             r.bad({'pass': 'TreeScanningGateRemovalPass', 'start_from_left': False, 'symptom': 'IndexError', 'via': name}, 'the pass completes',
-                  f'IndexError: {e}', f'{name}(perform_scan, tree_depth>0, start_from_left=False): the inner tree scan raises IndexError (stale cycle index)')
-            return r.out()
-        raise
-    except ValueError as e:
-        if 'qfactor' in str(e):
+                  f'IndexError: {msg}', f'{name}(perform_scan, tree_depth>0, start_from_left=False): the inner tree scan raises IndexError (stale cycle index)')
+        elif kind == 'ValueError' and 'qfactor' in msg:
             via = 'ExtractDiagonalPass' if o.get('extract') else 'ScanningGateRemovalPass(method=qfactor)'
-            r.bad({'pass': name, 'symptom': 'qfactor_not_capable', 'via': via}, 'the pass completes', str(e)[:160],
+            r.bad({'pass': name, 'symptom': 'qfactor_not_capable', 'via': via}, 'the pass completes', msg[:160],
                   f'{name} with these options instantiates a circuit containing CNOTGate with method=qfactor, which rejects it')
-            return r.out()
-        if False:
-            pass
-        if 'unitary condition' in str(e):
-            r.bad({'pass': name, 'symptom': 'demultiplex_not_unitary', 'via': 'BlockZXZPass.demultiplex'}, 'the pass completes', str(e)[:160],
+        elif kind == 'ValueError' and 'unitary condition' in msg:
+            r.bad({'pass': name, 'symptom': 'demultiplex_not_unitary', 'via': 'BlockZXZPass.demultiplex'}, 'the pass completes', msg[:160],
                   f'{name}: scipy eig of a block with repeated eigenvalues returns non-orthogonal eigenvectors; UnitaryMatrix(V) rejects them')
-            return r.out()
-        raise
+        else:
+            raise
+        return r.out()
     u0, u1 = U(c0), U(c1)
     if o.get('scan'):
         chk_thr(r, name, u0, u1, 1e-8 * 8)        # one accepted removal per scan round, each < 1e-8 of ITS target
@@ -1238,6 +1238,7 @@ def run_cosim(case):
     else:
         line = f'iter {int(left)} 5 {g} {ids_f} {sc}'
     r.info.update(model_line=line, outcome=outcome, final=id_grid(c1) if outcome == 'OK' else None, log=log, dense=dense,
+                  iter_line=('iterfwd ' if left else 'iterrev ') + g, its=its,
                   batch_sizes=[len(b) for b in batches],
                   removed=c0.num_operations - c1.num_operations if outcome == 'OK' else 0)
     # the oracle on the real run: only candidates accepted by the scripted cost may be committed
@@ -1871,6 +1872,12 @@ def skeleton_correspondence(ctx, results):
     """oracle-injected real runs vs the extracted decision skeletons"""
     items = [res for res in results if res['fam'] == 'cosim' and res['info'].get('model_line')]
     out = vf.run_model('passes', [res['info']['model_line'] for res in items]) if items else []
+    out_it = vf.run_model('passes', [res['info']['iter_line'] for res in items]) if items else []
+    for res, got in zip(items, out_it):
+        if got != res['info']['its']:
+            ctx.violation({'call': 'operations_with_cycles', 'kind': 'model-mismatch', 'reverse': not res['case']['left']}, res['case'], got, res['info']['its'],
+                          'iteration order of the real circuit differs from the model (iter_fwd / iter_rev)', kind='correspondence',
+                          corr='coq/pass/ScanSkel.v iter_fwd, iter_rev vs CircuitIterator')
     for res, got in zip(items, out):
         case = res['case']
         name = case['p']
